@@ -35,9 +35,40 @@ def sd_of(x):
     return None
 
 
+def exact_elem(v):
+    """concrete numbers living in a float-typed symbolic array become Sym numerals: python int / float / Fraction arithmetic
+    would otherwise round (7 ** -1, 1 / 3, Fraction * 0.1) and break exactness"""
+    if isinstance(v, (bool, _np.bool_)):
+        return v
+    if isinstance(v, (int, float, Fraction, _np.integer, _np.floating)):
+        try:
+            return Sym(core._to_real(_term(core.frac(v))))
+        except NotEncodable:
+            return v
+    return v
+
+
+def to_exact(x):
+    if core.ENGINE is None or not isinstance(x, _nd) or rd(x) != object:
+        return x
+    flat = _nd.view(x, _nd).reshape(-1) if x.flags.c_contiguous else None
+    if flat is None:
+        b = _nd.view(x, _nd)
+        for idx in _np.ndindex(*b.shape):
+            b[idx] = exact_elem(b[idx])
+        return x
+    for i in range(len(flat)):
+        v = flat[i]
+        if not isinstance(v, (Sym, SymBool)):
+            flat[i] = exact_elem(v)
+    return x
+
+
 def set_sd(x, dtype):
     if isinstance(x, _nd) and rd(x) == object and hasattr(x, "__dict__"):
         x.__dict__["_sd"] = None if dtype is None else _np.dtype(dtype)
+        if dtype is not None and _np.dtype(dtype).kind == "f":
+            to_exact(x)
     return x
 
 
@@ -515,6 +546,16 @@ class SymArray(_nd):
                 val = concretize_ints(val) if isinstance(val, _nd) else int(val)
             else:
                 raise NotEncodable("symbolic value stored into a concrete %s array" % rd(self))
+        elif rd(self) == object and core.ENGINE is not None:
+            d = sd_of(self)
+            if d is not None and d.kind == "f":
+                if isinstance(val, _nd):
+                    if rd(val) != object or not isinstance(val, SymArray) or sd_of(val) is None or sd_of(val).kind != "f":
+                        val = to_exact(_np.array(base(val), dtype=object))
+                elif isinstance(val, (list, tuple)):
+                    val = to_exact(_np.array(_strip_deep(val), dtype=object))
+                else:
+                    val = exact_elem(val)
         _nd.__setitem__(self, _conc_index(idx), val)
 
     def view(self, *a, **k):
